@@ -40,6 +40,8 @@ inductive ZLoc where
   | dCons
   /-- dequeue: `q` handed out `id`; at `am.len` (`consume` reports the length after dequeueing), then the payload is read -/
   | dLen (id : Nat)
+  /-- the second load of that length query (`am.len.head`); then the payload is read -/
+  | dLenH (id : Nat)
   /-- dequeue: value read from slot `id`; at `pa.dealloc.drop` -/
   | dDrop (id v : Nat)
   /-- at `pa.dealloc.free` -/
@@ -50,6 +52,8 @@ inductive ZLoc where
   | dFreeLen (v : Nat)
   /-- `available_elements_count` of the queue ring -/
   | lLen
+  /-- … its second load (`am.len.head`) -/
+  | lLenH (tl : Nat)
   deriving DecidableEq, Repr
 
 structure St where
@@ -105,7 +109,8 @@ def step (s : St) (t : Nat) : St :=
       | .done (.got id) => setThr { s with q := Ring.apply q' (.ack t) } t (.dLen id)
       | .done .empty => setThr { s with q := Ring.apply q' (.ack t) } t (.done .empty)
       | _ => { s with q := q' }
-  | .dLen id => setThr { s with deqLog := s.deqLog ++ [s.pool id] } t (.dDrop id (s.pool id))
+  | .dLen id => setThr s t (.dLenH id)
+  | .dLenH id => setThr { s with deqLog := s.deqLog ++ [s.pool id] } t (.dDrop id (s.pool id))
   | .dDrop id v => setThr s t (.dFreeHook id v)
   | .dFreeHook id v => setThr { s with free := Ring.apply s.free (.send t id) } t (.dFree id v)
   | .dFree id v =>
@@ -119,7 +124,8 @@ def step (s : St) (t : Nat) : St :=
       match f.thr t with
       | .done (.sent _) => setThr { s with free := Ring.apply f (.ack t) } t (.done (.deq v))
       | _ => { s with free := f }
-  | .lLen => setThr s t (.done (.len (s.q.tail - s.q.head)))
+  | .lLen => setThr s t (.lLenH s.q.tail)
+  | .lLenH tl => setThr s t (.done (.len (U32.wsub (U32.wrap tl) (U32.wrap s.q.head))))
 
 inductive Act where
   | enqueue (t v : Nat)
@@ -149,9 +155,11 @@ def tagOf (s : St) (t : Nat) : Option (String × Nat) :=
   | .eAlloc _ | .dFree _ _ | .dFreeLen _ => Ring.tagOf (s.free.thr t)
   | .ePub _ _ | .ePubLen _ | .dCons => Ring.tagOf (s.q.thr t)
   | .dLen _ => some ("am.len", 0)
+  | .dLenH _ => some ("am.len.head", 0)
   | .dDrop id _ => some ("pa.dealloc.drop", id)
   | .dFreeHook id _ => some ("pa.dealloc.free", id)
   | .lLen => some ("am.len", 0)
+  | .lLenH _ => some ("am.len.head", 0)
   | _ => none
 
 def Res.show : Res → String
